@@ -336,6 +336,7 @@ def run_history(kind_idx, kind, events, hist, seed, judge_all=False):
     for step, ev in enumerate(evs):
         last = step == len(evs) - 1
         judge = last or judge_all
+        nprobe = len(m.probes)            # probes are numbered since the last rollback (the model forgets them there)
         try:
             m.apply(ev)
             mexc = None
@@ -346,8 +347,6 @@ def run_history(kind_idx, kind, events, hist, seed, judge_all=False):
             iexc = None
         except Exception as e:
             iexc = e
-        if ev[0] == "add":
-            nprobe += 1
         if mexc is not None and iexc is not None:
             if judge:
                 t.outcomes["both-reject"] += 1
@@ -429,13 +428,15 @@ def explore(ctx):
     ud = 2 if not ctx.thorough else 3
     ctx.bounds = {
         "object_kinds": kinds, "events": [ev_name(e) for e in events], "merged_bfs_depth": depth,
+        "merged_bfs_depth_note": "thorough: depth 4 over the 23 events for the first 5 object kinds, depth 3 for the 5 further kinds",
         "unmerged_depth": ud, "samples_per_channel": N, "fs0": FS0,
         "extra_depth5_over_quick_alphabet": bool(ctx.thorough),
     }
     for ki, kind in enumerate(kinds):
         _CFG.update(kind_idx=ki, kind=kind, events=events, seed=ctx.seed)
         label = f"k{ki}:{kind[0]}{len(kind[1])}:{kind[3] if len(kind) > 3 else ""}/"
-        seen = bfs.merged(ctx, _runner, len(events), depth, label=label)
+        d_here = depth if (not ctx.thorough or ki < len(KINDS_QUICK)) else depth - 1     # thorough: the extra kinds to depth 3
+        seen = bfs.merged(ctx, _runner, len(events), d_here, label=label)
         if ki == 0:
             for k, h in list(seen.items())[:3] + list(seen.items())[-3:]:
                 ctx.tally.sample({"object": kind, "history": [ev_name(events[i]) for i in h], "state_digest": k})
